@@ -12,10 +12,10 @@ package main
 
 import (
 	"fmt"
-	"os"
-	"runtime/debug"
 	"go/types"
 	"math/big"
+	"os"
+	"runtime/debug"
 	"sort"
 	"strings"
 
